@@ -13,12 +13,12 @@ import (
 )
 
 // Client message alphabet of C16.
-const C16Msgs = 14
+const C16Msgs = 15
 
-var C16MsgNames = []string{"EVENT r", "EVENT r(again)", "EVENT v@2", "EVENT v@1(older)", "EVENT del->r", "EVENT ephemeral", "REQ all", "REQ kinds:[0]", "REQ limit:1", "COUNT", "CLOSE", "AUTH", "REQ ids:[abc] (not hex of even length: the SQLite query fails)", "REQ [{limit:0},{kinds:[1]}]"}
+var C16MsgNames = []string{"EVENT r", "EVENT r(again)", "EVENT v@2", "EVENT v@1(older)", "EVENT del->r", "EVENT ephemeral", "REQ all", "REQ kinds:[0]", "REQ limit:1", "COUNT", "CLOSE", "AUTH", "REQ ids:[abc] (not hex of even length: the SQLite query fails)", "REQ [{limit:0},{kinds:[1]}]", "EVENT del2->del (a deletion request for the deletion request)"}
 
 type c16Alphabet struct {
-	r, v2, v1, del, eph, auth *mocrelay.Event
+	r, v2, v1, del, eph, auth, del2 *mocrelay.Event
 }
 
 func newC16Alphabet() *c16Alphabet {
@@ -30,6 +30,7 @@ func newC16Alphabet() *c16Alphabet {
 		auth: Ev('f', '1', 22242, 40),
 	}
 	a.del = Ev('d', '1', 5, 30, mocrelay.Tag{"e", a.r.ID})
+	a.del2 = Ev('9', '1', 5, 35, mocrelay.Tag{"e", a.del.ID})
 	return a
 }
 
@@ -60,6 +61,8 @@ func (a *c16Alphabet) msg(code int, n int) mocrelay.ClientMsg {
 		return ReqMsg(sub, &mocrelay.ReqFilter{IDs: []string{"abc"}})
 	case 13:
 		return ReqMsg(sub, &mocrelay.ReqFilter{Limit: I64(0)}, &mocrelay.ReqFilter{Kinds: []int64{1}})
+	case 14:
+		return EventMsg(a.del2)
 	}
 	m, _ := mocrelay.NewClientAuthMsg(a.auth)
 	return m
